@@ -193,6 +193,9 @@ def gen_doc(rng, adversarial=False, size=None):
     blocks = [gen_block(rng, counter, 0, unicode_ok) for _ in range(n_blocks)]
     return {
         'width': 200, 'height': rng.choice([60, 80, 100, 140, 300]), 'margin': rng.choice([0, 0, 8]),
+        # pages of different heights: the first page, the left pages (outline targets are measured from the bottom of
+        # *their own* page)
+        'first_height': rng.choice([None, None, None, 120, 260, 40]), 'left_height': rng.choice([None, None, None, 160, 60]),
         'zoom': rng.choice([1, 1, 2, 0.5]), 'lang': rng.choice([None, None, 'fr', 'en-GB', '']),
         'head': gen_head(rng, adversarial), 'blocks': blocks,
         'attach_head': gen_attach_head(rng), 'attach_option': gen_attach_option(rng),
@@ -292,7 +295,9 @@ def doc_html(spec):
         title = '' if el['title'] is None else f' title="{attr(el["title"])}"'
         head.append(f'<link rel="attachment"{href}{title}>')
     lang = '' if spec['lang'] is None else f' lang="{attr(spec["lang"])}"'
-    style = (f'@page{{size:{spec["width"]}px {spec["height"]}px;margin:{spec["margin"]}px}}'
+    style = (f'@page{{size:{spec["width"]}px {spec["height"]}px;margin:{spec["margin"]}px}}' +
+             (f'@page :left{{size:{spec["width"]}px {spec["left_height"]}px}}' if spec.get('left_height') else '') +
+             (f'@page :first{{size:{spec["width"]}px {spec["first_height"]}px}}' if spec.get('first_height') else '') +
              'body{margin:0;font:20px/20px weasyprint}'
              'h1,h2,h3,h4,h5,h6,p,div{display:block;font-size:20px;margin:0;font-weight:normal}' + pseudo_css(spec))
     return (f'<!DOCTYPE html><html{lang}><head>{"".join(head)}<style>{style}</style></head><body>'
@@ -706,6 +711,8 @@ def add_document_cases(secs, spec, run, stats):
     n_pages = len(document.pages)
     split = sum(1 for kept in watch_items(document)[1] if not kept)
     tags = [f'pages{min(n_pages, 5)}', f'headings{min(len(headings) // 5 * 5, 40)}']
+    if len({p.height for p in document.pages}) > 1:
+        tags.append('page-heights-differ')
     if split:
         tags.append('heading-split-over-pages')
 
@@ -805,11 +812,16 @@ def add_document_cases(secs, spec, run, stats):
                                                 ('option', spec['attach_option']),
                                                 ('failing', any(a['size'] is None for a in table.values())),
                                                 ('missing-href', any(el['href'] is None for el in spec['attach_head'])),
-                                                ('keys-reordered', doc_keys != sorted(doc_keys, key=written_form)),
+                                                ('keys-reordered', doc_keys != sorted(doc_keys)),
                                                 ('keys-written-form-differs', sorted(doc_keys) != sorted(
                                                     doc_keys, key=written_form)),
                                                 ('keys-duplicate', len(set(doc_keys)) < len(doc_keys)))
                                  if c])
+
+    # a subset of the pages: document.copy(pages).write_pdf() after the whole document has been written
+    if n_pages >= 2:
+        indices = gen_subset(run.rng, n_pages)
+        add_subset_cases(secs, spec, document, indices, scale, meta, stats)
 
     # metadata
     head = [['title', G.cps(el[1])] if el[0] == 'title' else ['meta', G.cps(el[1]), G.cps(el[2])] for el in spec['head']]
@@ -841,6 +853,147 @@ def add_document_cases(secs, spec, run, stats):
                              ('same-path-other-query', any((l['href'] or '').startswith('?') for l in links))) if c])
 
 
+def gen_subset(rng, n_pages):
+    """Indices of the pages given to Document.copy: some pages dropped, order reversed, a page given twice."""
+    k = rng.random()
+    if k < 0.5:
+        indices = [i for i in range(n_pages) if rng.random() < 0.6] or [rng.randrange(n_pages)]
+    elif k < 0.7:
+        indices = list(range(n_pages))[::-1]
+    elif k < 0.85:
+        indices = [rng.randrange(n_pages) for _ in range(rng.randint(1, n_pages + 1))]
+    else:
+        indices = list(range(rng.randrange(n_pages), n_pages))
+    return indices[:12]
+
+
+def subset_pdf(document, indices, zoom):
+    pages = [document.pages[i] for i in indices]
+    return pages, Pdf(document.copy(pages).write_pdf(zoom=zoom, uncompressed_pdf=True, full_fonts=True))
+
+
+def add_subset_cases(secs, spec, document, indices, scale, meta, stats):
+    meta = dict(meta, subset=indices)
+    # the document has been written once: its metadata attachments (<link rel=attachment href>) are spent
+    head_links = [[None if el['href'] is None else esc(urllib.parse.urljoin(base_url(), el['href'])),
+                   None if el['title'] is None else esc(el['title'])] for el in spec['attach_head']]
+    try:
+        pages, pdf = subset_pdf(document, indices, spec['zoom'])
+        outcome = 'ok'
+    except Exception as exc:  # noqa: BLE001
+        outcome = G.err_outcome(exc)
+    secs['subset'].add(sx.line('rewrite', head_links), outcome, meta=meta,
+                       nontrivial=any(h[0] is not None for h in head_links),
+                       tags=['second-write', 'second-write-' + ('ok' if outcome == 'ok' else 'error')])
+    if outcome != 'ok':
+        return
+    coords = []
+    for p in pages:
+        for _, _, rect, _ in p.links:
+            coords.extend([G.frac(rect[0]) * scale, G.frac(rect[2]) * scale, (G.frac(p.height) - G.frac(rect[1])) * scale,
+                           (G.frac(p.height) - G.frac(rect[3])) * scale])
+        for x, y, _, _ in p.anchors.values():
+            coords.extend([G.frac(x) * scale, (G.frac(p.height) - G.frac(y)) * scale])
+        for _, _, (x, y), _ in p.bookmarks:
+            coords.extend([G.frac(x) * scale, (G.frac(p.height) - G.frac(y)) * scale])
+    if not six_decimals(coords):
+        stats['float_rounding_skipped'] += 1
+        return
+    all_names = {n for p in pages for n in p.anchors}
+    dropped = any(k == 'internal' and t not in all_names for p in pages for k, t, _, _ in p.links)
+    tags = [t for t, c in (('pages-dropped', len(set(indices)) < len(document.pages)),
+                           ('page-repeated', len(set(indices)) < len(indices)),
+                           ('pages-reordered', indices != sorted(indices)),
+                           ('link-to-unselected-page', dropped and any(
+                               k == 'internal' and t not in all_names and any(t in q.anchors for q in document.pages)
+                               for p in pages for k, t, _, _ in p.links))) if c]
+    line = sx.line('doclinks', scale, [
+        [G.frac(p.height), [[esc(n), G.cps(n), G.frac(r[0]), G.frac(r[1])] for n, r in p.anchors.items()],
+         [[esc(k), esc(t)] + [G.frac(v) for v in rect] for k, t, rect, _ in p.links]] for p in pages])
+    secs['subset'].add(line, pdf.links_wire(), meta=meta, nontrivial=len(set(indices)) < len(document.pages),
+                       tags=tags + ['links'])
+    pages_wire = [[G.frac(p.height), [[lvl, esc(lab), G.frac(x), G.frac(y), esc(st)]
+                                      for lvl, lab, (x, y), st in p.bookmarks]] for p in pages]
+    numbers = pdf.outline_objects()
+    secs['subset'].add(sx.line('pdfoutl', scale, numbers[0] if numbers else 0, pdf.page_numbers, pages_wire),
+                       pdf.outline_wire(), meta=meta, nontrivial=len(set(indices)) < len(document.pages),
+                       tags=tags + ['outlines'])
+
+
+def oracle_subset(spec, indices):
+    """The clauses on `document.copy(pages).write_pdf()`: the links, destinations and outline entries of the
+    selected pages only — a link to an anchor of an unselected page is dropped, not left dangling; every entry points
+    into the page list of the new document.  -> (what, finding id) | None"""
+    fill_targets(spec)
+    try:
+        document, _ = render_spec(spec)
+    except Exception as exc:  # noqa: BLE001
+        return f'rendering raised {type(exc).__name__}: {exc}', None
+    try:
+        pages, pdf = subset_pdf(document, indices, spec['zoom'])
+    except Exception as exc:  # noqa: BLE001
+        spent = any(el['href'] is not None for el in spec.get('attach_head') or ())
+        return (f'writing the pages {indices} after the whole document raised {type(exc).__name__}: {exc}',
+                'attachment-second-write-crash' if spent and isinstance(exc, AttributeError)
+                and '_GeneratorContextManager' in str(exc) else None)
+    what = _oracle_subset(spec, indices, document, pages, pdf)
+    return (what, None) if what else None
+
+
+def _oracle_subset(spec, indices, document, pages, pdf):
+    scale = F(spec['zoom']) * F(3, 4)
+
+    def to_pdf(page, x, y):
+        return scale * G.frac(x), scale * (G.frac(page.height) - G.frac(y))
+    first = {}
+    for position, page in enumerate(pages):
+        for name, rect in page.anchors.items():
+            first.setdefault(name, (position, to_pdf(page, rect[0], rect[1])))
+    links_wire, dests_wire = sx.loads_line(pdf.links_wire())
+    got = {d[0]: (int(d[1]), (F(d[2]), F(d[3]))) for d in dests_wire if d[0] != 'bad-dest'}
+    if len(got) != len(dests_wire):
+        return f'malformed or repeated destinations {dests_wire}'
+    want = {esc(n): v for n, v in first.items()}
+    if set(got) != set(want):
+        return f'destinations {sorted(got)}; the selected pages {indices} carry the names {sorted(want)}'
+    for name, (position, point) in got.items():
+        if position != want[name][0] or not close(point, want[name][1]):
+            return (f'destination {name!r} points to page {position} at {point}; its first element among the pages '
+                    f'{indices} is on page {want[name][0]} at {want[name][1]}')
+    keys = [dest_key_bytes(n) for n in sorted(first, key=dest_key_bytes)]
+    if [d[0] for d in dests_wire] != [esc(n) for n in sorted(first, key=dest_key_bytes)]:
+        return f'named destinations {[d[0] for d in dests_wire]} are not in the byte order of their keys {keys}'
+    for position, (annots, page) in enumerate(zip(links_wire, pages)):
+        kept = [l for l in page.links if l[0] != 'internal' or l[1] in first]
+        kept = [l for l in kept if l[0] != 'attachment'] + [l for l in kept if l[0] == 'attachment']
+        if [a[0] for a in annots] != [l[0] for l in kept]:
+            return (f'page {position} (page {indices[position]} of the document): annotations {[a[:2] for a in annots]} '
+                    f'for the links {[l[:2] for l in page.links]} (destinations on the selected pages: {sorted(first)})')
+        for a, l in zip(annots, kept):
+            if a[0] == 'internal' and a[1] not in got:
+                return f'dangling internal link to {a[1]!r}'
+            if a[0] != 'attachment' and a[1] != esc(l[1]):
+                return f'annotation {a[:2]} for the link {l[:2]}'
+            want_rect = to_pdf(page, l[2][0], l[2][1]) + to_pdf(page, l[2][2], l[2][3])
+            if not close(tuple(F(v) for v in a[-4:]), want_rect):
+                return f'annotation of {l[:2]} has Rect {[str(v) for v in a[-4:]]}, its link covers {[str(v) for v in want_rect]}'
+    bookmarks = [(position, page, b) for position, page in enumerate(pages) for b in page.bookmarks]
+    numbers = pdf.outline_objects()
+    structure = pdf.outline_structure()
+    if structure.startswith('bad-links'):
+        return f'outline links inconsistent: {structure}'
+    want_tree, want_count = expected_structure([(lvl, lab, st) for _, _, (lvl, lab, _, st) in bookmarks])
+    if structure != sx.dumps(want_tree) + ' ' + sx.atom(want_count):
+        return (f'outline {structure} is not the outline of the bookmarks of the pages {indices}: '
+                f'{sx.dumps(want_tree)} {want_count}')
+    for number, (position, page, (_, label, (x, y), _)) in zip(numbers, bookmarks):
+        dest = pdf.objects[number]['Dest']
+        if int(dest[0]) != pdf.page_numbers[position] or not close((dest[2], dest[3]), to_pdf(page, x, y)):
+            return (f'outline {label!r} points to object {dest[0]} at {(dest[2], dest[3])}; its bookmark is on page '
+                    f'{position} of the new document (object {pdf.page_numbers[position]}) at {to_pdf(page, x, y)}')
+    return None
+
+
 def regression_specs():
     """Corpus-first documents: the inputs of the repaired findings of C18 (a `fixed:` line of known_findings.txt
     suppresses nothing — if the defect comes back the sections below disagree and the oracle reports it)."""
@@ -865,6 +1018,10 @@ def regression_specs():
         dict(base, blocks=[para(0, None)], attach_option=[option('1', 'b.txt'), option('2', 'a.txt')]),
         dict(base, blocks=[para(0, None)], attach_option=[option('1', 'b é.txt'), option('2', None), option('3', 'a.txt')],
              attach_head=[{'href': 'data:text/plain,DOC1', 'title': None}]),
+        # embedded-files-written-form-order, fixed by e909019: a key that is a prefix of the next, keys with ( ) \\
+        dict(base, blocks=[para(0, None)], attach_option=[option('1', 'report 2'), option('2', 'report')]),
+        dict(base, blocks=[para(0, None)], attach_option=[option('1', 'aZ.txt'), option('2', 'a(1).txt'), option('3', 'a#b'),
+                                                          option('4', 'a'), option('5', 'a\\b'), option('6', 'a)')]),
         # anchor-double-transform, fixed by a37277b: <h1 id=a style="transform: translate(…)">
         dict(base, blocks=[heading(0, 'a', 'translate(8px, 4px)'), para(1, 'b')]),
     ]
@@ -895,6 +1052,10 @@ def document_sections(prop, run):
             'doc-pdf-links', '/Annots of every page (Rect, Dest / URI, FileAttachment) and the sorted /Names /Dests '
             'array against resolve_links + add_links + sorted() of the model run on Page.links / Page.anchors; '
             'non-trivial = at least one link and one anchor'),
+        'subset': run.section(
+            'doc-page-subset', 'document.copy(pages).write_pdf() written after the whole document (pages dropped, reversed, '
+            'repeated): /Annots, /Dests and the outline dictionaries against resolve_links + add_links + the sort and '
+            'make_bookmark_tree + add_outlines of the model run on the selected pages; non-trivial = a page is left out'),
         'attach': run.section(
             'doc-attachments', '/FileAttachment annotations of every page (Rect, which embedded file), the embedded '
             'files of attachment links (one per URL, creation order) and of <link rel=attachment> / '
@@ -1176,8 +1337,7 @@ def _oracle(spec, shadow):
         return f'/Info {got}, metadata of the document {want}', None
     # the keys of the /EmbeddedFiles name tree: sorted by their bytes, none twice (ISO 32000-1 7.9.6)
     if embedded_keys != sorted(embedded_keys):
-        return (f'/EmbeddedFiles keys are not in byte order: {embedded_keys}',
-                'embedded-files-written-form-order' if written_form_sorted(embedded_keys) else None)
+        return f'/EmbeddedFiles keys are not in byte order: {embedded_keys}', None
     if len(set(embedded_keys)) != len(embedded_keys):
         return f'/EmbeddedFiles lists a key twice: {embedded_keys}', 'embedded-files-duplicate-keys'
     return None
@@ -1187,13 +1347,6 @@ def written_form(key):
     """pydyf.String(<bytes>).data: the literal string as written."""
     import re
     return b'(' + re.sub(rb'([\\\(\)])', rb'\\\1', key) + b')'
-
-
-def written_form_sorted(keys):
-    """Non-decreasing in the written form: the order the known finding `embedded-files-written-form-order`
-    describes (anything else is a new defect)."""
-    forms = [written_form(k) for k in keys]
-    return forms == sorted(forms)
 
 
 def reference_meta(head):
@@ -1317,6 +1470,11 @@ _SHRUNK = [0]
 def judge(meta, d):
     if 'spec' not in meta:
         return None
+    if meta.get('subset') is not None:
+        found = oracle_subset(meta['spec'], list(meta['subset']))
+        if found and found[1] is None:
+            return f'{found[0]}  [document.copy of the pages {list(meta["subset"])} of: {doc_html(meta["spec"])}]'
+        return None
     found = oracle(_revive_spec(meta['spec']))
     if found and found[1] is None:
         _SHRUNK[0] += 1
@@ -1357,6 +1515,17 @@ def search(prop, run, failures):
             what = oracle(spec)
         except Exception as exc:  # noqa: BLE001
             what = (f'oracle crashed: {type(exc).__name__}: {exc}', None)
+        if not what and i % 3 == 0:
+            try:       # the same document written through Document.copy with a subset of its pages
+                n_pages = len(render_spec(spec)[0].pages)
+                indices = gen_subset(rng, n_pages) if n_pages >= 2 else None
+                sub = oracle_subset(spec, indices) if indices else None
+            except Exception as exc:  # noqa: BLE001
+                indices, sub = [], (f'oracle crashed: {type(exc).__name__}: {exc}', None)
+            if sub:
+                found.append({'what': sub[0], 'input': {'html': doc_html(spec), 'zoom': spec['zoom'],
+                                                        'meta': {'kind': 'doc', 'spec': spec, 'subset': indices}},
+                              'signature': sub[0][:80], 'finding_id': sub[1]})
         if what:
             text, finding = what
             found.append({'what': text, 'input': {'html': doc_html(spec), 'spec': spec, 'zoom': spec['zoom']},
@@ -1367,6 +1536,8 @@ def search(prop, run, failures):
 
 
 def replay_html(inp):
+    if isinstance(inp.get('meta'), dict) and inp['meta'].get('subset') is not None:
+        return replay_meta(inp['meta'])
     if 'spec' in inp:
         found = oracle(inp['spec'])
         return found[0] if found else None
@@ -1374,6 +1545,9 @@ def replay_html(inp):
 
 
 def replay_meta(meta):
+    if 'spec' in meta and meta.get('subset') is not None:
+        found = oracle_subset(meta['spec'], list(meta['subset']))
+        return found[0] if found else None
     if 'spec' in meta:
         found = oracle(meta['spec'])
         return found[0] if found else None
@@ -1403,12 +1577,6 @@ def _embedded_keys(names):
     return [k.raw for k in c18_pdf.deref(pdf.objects, pdf.catalog['Names']['EmbeddedFiles'])['Names'][::2]]
 
 
-def replay_embedded_files_written_form_order():
-    """Attachments `report` then `report 2`: the key `report` is a prefix of `report 2` and must come first."""
-    keys = _embedded_keys(['report', 'report 2'])
-    return keys != sorted(keys)
-
-
 def replay_embedded_files_duplicate_keys():
     """Two attachments named a.txt: the name tree must not hold a key twice."""
     keys = _embedded_keys(['a.txt', 'a.txt'])
@@ -1420,3 +1588,15 @@ def replay_anchor_id_shadowed():
     docs.quiet()
     document = docs.render(_BASE + '<div><a id="x" name="y">target</a> <a href="#x">link</a></div>')
     return 'x' not in document.pages[0].anchors
+
+
+def replay_attachment_second_write():
+    """A document with <link rel=attachment href=…> must be writable twice."""
+    docs.quiet()
+    document = docs.render(_BASE + '<link rel="attachment" href="data:text/plain,hi"><div>x</div>')
+    document.write_pdf()
+    try:
+        document.write_pdf()
+    except AttributeError:
+        return True
+    return False
